@@ -33,9 +33,10 @@ from ..tlc import expect_clean, expect_violation
 
 META = {
     "level": "model_checking",
-    "level_text": "TLC checks for every signature of the bounded universe (<= 2 named parameters in "
-                  "the quick tier, <= 3 in the thorough tier; positional-or-keyword with trailing "
-                  "defaults, keyword-only, *args, **kwargs, every config_args subset up to the bound, "
+    "level_text": "TLC checks for every signature of the bounded universe (<= 2 named parameters, <= 3 "
+                  "supplied arguments, <= 1 config arg, single edits in the quick tier; <= 3 named, <= 4 "
+                  "supplied, <= 2 config args, single and double edits in the thorough tier; "
+                  "positional-or-keyword with trailing defaults, keyword-only, *args, **kwargs, "
                   "optional JobInfo parameter), every way of writing a call and every edit (value, "
                   "keyword order, default by keyword) that the transcribed key construction changes "
                   "the key exactly when a non-config bound argument changes, and that the as-built "
@@ -189,9 +190,10 @@ INVS = ["Specified", "EditEffect", "LawIdeal", "ZipConfined", "DefaultsConfined"
         "TaskHashSeparates", "Emit"]
 
 
-def cfg(named, sup, ncfg, edits, invs) -> str:
+def cfg(named, sup, ncfg, edits, jplevel, invs) -> str:
     return (f"SPECIFICATION Spec\nCONSTANTS\n MaxNamed = {named}\n MaxSup = {sup}\n MaxCfg = {ncfg}\n"
-            f" MaxEdits = {edits}\n" + "".join(f"INVARIANT {i}\n" for i in invs) + "CHECK_DEADLOCK FALSE\n")
+            f" MaxEdits = {edits}\n JpLevel = {jplevel}\n" + "".join(f"INVARIANT {i}\n" for i in invs)
+            + "CHECK_DEADLOCK FALSE\n")
 
 
 def mkcall(v) -> dict:
@@ -467,16 +469,17 @@ def run(ctx: Ctx) -> None:
     with TagSpy() as spy:
         with timed(ctx, "forward"):
             if ctx.quick:
-                cases = forward(ctx, w, (2, 3, 1, 1), spy)
+                cases = forward(ctx, w, (2, 3, 1, 1, 1), spy)
             else:       # wider signatures with single edits, and double edits on the smaller ones
-                cases = forward(ctx, w, (3, 4, 2, 1), spy) + forward(ctx, w, (2, 3, 2, 2), spy)
+                cases = (forward(ctx, w, (3, 4, 2, 1, 2), spy) + forward(ctx, w, (2, 3, 2, 2, 2), spy)
+                         + forward(ctx, w, (3, 3, 1, 2, 1), spy))
         ctx.require(spy.calls > 0, "hash_struct spy recorded nothing")
         for i, d in enumerate(DEVS):
             n = sum(1 for c in cases if c.vstr[1 << i] != c.law)
             ctx.require(n > 0, f"deviation {d} never departs from the law in the model: not modelled")
             ctx.cov.setdefault("model_pairs_where_deviation_breaks_law", {})[d] = n
         if not ctx.quick:
-            ctl = tlc(ctx, "control LawAsBuilt", "hash/EvalKey.tla", cfg(2, 3, 1, 1, ["LawAsBuilt"]), workers=2)
+            ctl = tlc(ctx, "control LawAsBuilt", "hash/EvalKey.tla", cfg(2, 3, 1, 1, 1, ["LawAsBuilt"]), workers=2)
             expect_violation(ctl, "LawAsBuilt", "EvalKey.tla LawAsBuilt control")
             ctx.add_tlc(ctl)
         with timed(ctx, "e2e"):
